@@ -9,7 +9,7 @@ use std::sync::atomic::{AtomicUsize, Ordering};
 use std::sync::Arc;
 use std::time::Duration;
 
-const CASE_TIMEOUT_S: u64 = 6;
+const CASE_TIMEOUT_S: u64 = 15;     // generous: the machine may be heavily loaded; a real hang is still caught
 const STACK_BYTES: usize = 64 << 20;
 
 fn read_cases(path: &str) -> Vec<String> {
